@@ -485,10 +485,10 @@ void w_trace_text(void)
   }
   __CPROVER_assert(m->n >= 1 && m->t[0].kind == VP_T_CSTR && m->t[0].p == nm_name[c], "[C17] POST trace.record_starts_with_the_handling_expectation_text");
   __CPROVER_assert(n_int >= 2 && ints[0] == 1 && ints[1] == (long)x, "[C17] POST trace.record_carries_the_actual_arguments");
-  /* m->lit: the last string literal of the library text in the record (" -> ", "threw exception: what() = ", "threw unknown exception\n") */
-  if (!thrown) __CPROVER_assert(n_int == 3 && ints[2] == (long)ret && !what && m->lit != 0 && m->lit[1] == '-' && m->lit[2] == '>', "[C17] POST trace.record_carries_the_returned_value");
-  if (thrown == VP_EXC_USER_STD) __CPROVER_assert(n_int == 2 && what && m->lit != 0 && m->lit[0] == 't' && m->lit[6] == 'e', "[C17] POST trace.record_carries_what_of_a_std_exception");
-  if (thrown == VP_EXC_USER_OTHER) __CPROVER_assert(n_int == 2 && !what && m->lit != 0 && m->lit[0] == 't' && m->lit[6] == 'u', "[C17] POST trace.non_std_exception_is_noted_as_unknown");
+  /* m->lit: the last string literal of the library text in the record; only the word the property itself uses is looked for */
+  if (!thrown) __CPROVER_assert(n_int == 3 && ints[2] == (long)ret && !what, "[C17] POST trace.record_carries_the_returned_value");
+  if (thrown == VP_EXC_USER_STD) __CPROVER_assert(n_int == 2 && what, "[C17] POST trace.record_carries_what_of_a_std_exception");
+  if (thrown == VP_EXC_USER_OTHER) __CPROVER_assert(n_int == 2 && !what && vp_lit_has(m->lit, "unknown"), "[C17] POST trace.non_std_exception_is_noted_as_unknown");
   __CPROVER_assert(thrown != VP_EXC_USER_STD, "REACH trace.std_exception"); __CPROVER_assert(thrown != VP_EXC_USER_OTHER, "REACH trace.unknown_exception");
   __CPROVER_assert(0, "REACH! trace_text.end");
 }
